@@ -26,22 +26,25 @@ Definition t_empty : trie := Node false FNil.
 Definition t_terminal (t : trie) : bool := match t with Node tm _ => tm end.
 Definition t_children (t : trie) : forest := match t with Node _ f => f end.
 
+(** insertion of the edge [b] (then the rest of the key, by [ins_r]) into sorted children:
+    [BTreeMap::get] / [BTreeMap::insert] *)
+Definition f_ins (b : N) (ins_r : trie -> trie) : forest -> forest :=
+  fix ins (f : forest) : forest :=
+    match f with
+    | FNil => FCons b (ins_r t_empty) FNil
+    | FCons l c rest =>
+        if b <? l then FCons b (ins_r t_empty) f
+        else if b =? l then FCons l (ins_r c) rest
+        else FCons l c (ins rest)
+    end.
+
 (** One iteration of the builder's outer loop: walk/extend the path of [k], mark terminal. *)
 Fixpoint t_insert (k : bytes) (t : trie) {struct k} : trie :=
   match t with
   | Node tm f =>
       match k with
       | [] => Node true f
-      | b :: r =>
-          Node tm
-            ((fix ins (f : forest) : forest :=
-                match f with
-                | FNil => FCons b (t_insert r t_empty) FNil
-                | FCons l c rest =>
-                    if b <? l then FCons b (t_insert r t_empty) f
-                    else if b =? l then FCons l (t_insert r c) rest
-                    else FCons l c (ins rest)
-                end) f)
+      | b :: r => Node tm (f_ins b (t_insert r) f)
       end
   end.
 
@@ -114,12 +117,18 @@ Fixpoint geq_loop (target : bytes) (t : trie) (path : bytes) (stack : list (fore
   end.
 Definition find_first_key_geq (t : trie) (target : bytes) : option bytes := geq_loop target t [] [].
 
-(** the last child with label <= tb and the child just before it *)
-Fixpoint scan_le (tb : N) (f : forest) (pp p : option (N * trie))
-  : option (N * trie) * option (N * trie) :=
+(** [(previous sibling, last child with label <= tb)] over the sorted children: the code's
+    [simd_last_le] index and, on backtracking, [chosen - 1] *)
+Fixpoint scan_le (tb : N) (f : forest) : option (N * trie) * option (N * trie) :=
   match f with
-  | FNil => (pp, p)
-  | FCons l c r => if l <=? tb then scan_le tb r p (Some (l, c)) else (pp, p)
+  | FNil => (None, None)
+  | FCons l c r =>
+      if l <=? tb then
+        match scan_le tb r with
+        | (pp, Some x) => (match pp with Some _ => pp | None => Some (l, c) end, Some x)
+        | (_, None) => (None, Some (l, c))
+        end
+      else (None, None)
   end.
 
 (** backtracking of [find_last_key_leq]: nearest ancestor with a previous sibling;
@@ -142,7 +151,7 @@ Fixpoint leq_loop (target : bytes) (t : trie) (path : bytes)
       | None => if t_terminal t then Some path else None
       end
   | tb :: rest =>
-      match scan_le tb (t_children t) None None with
+      match scan_le tb (t_children t) with
       | (pp, Some (l, c)) =>
           if l =? tb then leq_loop rest c (path ++ [l]) ((pp, path) :: stack)
           else descend_rightmost c (path ++ [l])
